@@ -71,9 +71,17 @@ impl BlockFilter {
         });
     }
 
+    /// Run the filter builder synchronously to the latest block (verification hook).
+    #[cfg(ckb_verif)]
+    pub fn verif_build_filter_data(&self) {
+        self.build_filter_data()
+    }
+
     /// build block filter data to the latest block
     fn build_filter_data(&self) {
         let snapshot = self.shared.snapshot();
+        #[cfg(ckb_verif)]
+        crate::verif::point("filter::after_snapshot");
         let tip_header = snapshot.get_tip_header().expect("tip stored");
         let start_number = match snapshot.get_latest_built_filter_data_block_hash() {
             Some(block_hash) => {
@@ -113,6 +121,8 @@ impl BlockFilter {
                 return;
             }
 
+            #[cfg(ckb_verif)]
+            crate::verif::point("filter::before_build_block");
             let block_hash = snapshot.get_block_hash(block_number).expect("index stored");
             let header = snapshot
                 .get_block_header(&block_hash)
